@@ -18,14 +18,14 @@
 /// logic.
 
 #[test]
-fn kani_concrete_playback_c12_key_plain_3_17798760139263696522() {
+fn kani_concrete_playback_c12_key_plain_3_8364316857353895518() {
     let concrete_vals: Vec<Vec<u8>> = vec![
-        // 239
-        vec![239],
-        // 187
-        vec![187],
-        // 191
-        vec![191],
+        // 73
+        vec![73],
+        // 110
+        vec![110],
+        // 102
+        vec![102],
     ];
     kani::concrete_playback_run(concrete_vals, c12_key_plain_3);
 }
